@@ -70,8 +70,8 @@ func hasHyphen(s string) bool {
 // the next character is a letter, and by the segment algorithm otherwise; the two disagree on
 // spelling variants, which breaks transitivity. The finding covers the inputs in which some pair
 // of pkgver texts takes the prefix path; with no such pair every comparison runs the segment
-// algorithm alone. A text that is not a plain version (a range with comparators) is in scope when
-// a letter directly follows a digit in it, as before. (inputs only)
+// algorithm alone. The bounds of a range text (C20) take part in the pair test like the
+// versions; a range text in which a letter directly follows a digit is in scope as before. (inputs only)
 func alpmGlued(eco string, texts ...string) bool {
 	if eco != "alpm" {
 		return false
@@ -85,14 +85,46 @@ func alpmGlued(eco string, texts ...string) bool {
 			}
 		}
 	}
-	for i, x := range texts {
-		for j, y := range texts {
-			if i != j && !alpmIsRangeText(x) && !alpmIsRangeText(y) && alpmPrefixPath(alpmPkgver(x), alpmPkgver(y)) {
+	// plain version texts and the bounds of range texts
+	var vs []string
+	for _, s := range texts {
+		if alpmIsRangeText(s) {
+			vs = append(vs, alpmBounds(s)...)
+		} else {
+			vs = append(vs, s)
+		}
+	}
+	for i, x := range vs {
+		for j, y := range vs {
+			if i != j && alpmPrefixPath(alpmPkgver(x), alpmPkgver(y)) {
 				return true
 			}
 		}
 	}
 	return false
+}
+
+// alpmBounds: the version texts of a range: split at spaces, commas and '|', comparator characters removed.
+func alpmBounds(r string) []string {
+	var out []string
+	cur := ""
+	flush := func() {
+		if cur != "" {
+			out = append(out, cur)
+		}
+		cur = ""
+	}
+	for i := 0; i < len(r); i++ {
+		switch c := r[i]; c {
+		case ' ', ',', '|':
+			flush()
+		case '<', '>', '=', '!', '^', '*':
+		default:
+			cur += r[i : i+1]
+		}
+	}
+	flush()
+	return out
 }
 
 func alpmIsRangeText(s string) bool {
